@@ -1084,7 +1084,9 @@ func c06Malformed(run *evid.Run, e *c06Env) {
 	guard("generic nil Data field", func() ([]core.Result, [][]byte) {
 		return one(sv.SignGeneric(bg, creds, nm[0], nil, &rules.SignData{Domain: Dom([]byte{9, 0, 0, 0}, 1)}))
 	}, []int{0})
-	guard("generic nil Domain field", func() ([]core.Result, [][]byte) { return one(sv.SignGeneric(bg, creds, nm[0], nil, &rules.SignData{Data: Root32(1)})) }, []int{0})
+	guard("generic nil Domain field", func() ([]core.Result, [][]byte) {
+		return one(sv.SignGeneric(bg, creds, nm[0], nil, &rules.SignData{Data: Root32(1)}))
+	}, []int{0})
 	guard("attestation nil data", func() ([]core.Result, [][]byte) { return one(sv.SignBeaconAttestation(bg, creds, nm[0], nil, nil)) }, []int{0})
 	guard("attestation nil source", func() ([]core.Result, [][]byte) {
 		d := att(0)
@@ -1169,15 +1171,23 @@ func c06Malformed(run *evid.Run, e *c06Env) {
 		}
 	}
 	rguard("no entries", func() []rules.Result { return rl.RunRules(bg, creds, ruler.ActionSignBeaconAttestation, nil) }, []int{0})
-	rguard("nil entry", func() []rules.Result { return rl.RunRules(bg, creds, ruler.ActionSignBeaconAttestation, []*ruler.RulesData{nil}) }, []int{0})
-	rguard("nil data", func() []rules.Result { return rl.RunRules(bg, creds, ruler.ActionSignBeaconAttestation, []*ruler.RulesData{rd(0, nil)}) }, []int{0})
+	rguard("nil entry", func() []rules.Result {
+		return rl.RunRules(bg, creds, ruler.ActionSignBeaconAttestation, []*ruler.RulesData{nil})
+	}, []int{0})
+	rguard("nil data", func() []rules.Result {
+		return rl.RunRules(bg, creds, ruler.ActionSignBeaconAttestation, []*ruler.RulesData{rd(0, nil)})
+	}, []int{0})
 	rguard("empty key", func() []rules.Result {
 		d := rd(0, att(0))
 		d.PubKey = nil
 		return rl.RunRules(bg, creds, ruler.ActionSignBeaconAttestation, []*ruler.RulesData{d})
 	}, []int{0})
-	rguard("unknown action", func() []rules.Result { return rl.RunRules(bg, creds, "Sign anything", []*ruler.RulesData{rd(0, att(0))}) }, []int{0})
-	rguard("nil credentials", func() []rules.Result { return rl.RunRules(bg, nil, ruler.ActionSignBeaconAttestation, []*ruler.RulesData{rd(0, att(0))}) }, []int{0})
+	rguard("unknown action", func() []rules.Result {
+		return rl.RunRules(bg, creds, "Sign anything", []*ruler.RulesData{rd(0, att(0))})
+	}, []int{0})
+	rguard("nil credentials", func() []rules.Result {
+		return rl.RunRules(bg, nil, ruler.ActionSignBeaconAttestation, []*ruler.RulesData{rd(0, att(0))})
+	}, []int{0})
 	rguard("credentials without a client", func() []rules.Result {
 		return rl.RunRules(bg, &checker.Credentials{RequestID: "r", IP: "10.0.0.1"}, ruler.ActionSignBeaconProposal, []*ruler.RulesData{rd(0, prop())})
 	}, []int{0})
